@@ -5,6 +5,9 @@ import json
 import os
 import sys
 import traceback
+import faulthandler
+
+faulthandler.enable()          # a crash inside compiled library code (out-of-bounds in an njit kernel ...) leaves a python traceback on stderr
 
 os.environ.setdefault("NUMBA_DISABLE_JIT", "0")
 import warnings
